@@ -307,6 +307,18 @@ STD_ENUMS = {
 }
 
 
+def array_to_seq(v):
+    """[array] of scalars -> VSeq view with the same contents"""
+    arr = z3.K(z3.IntSort(), I(0))
+    ety = "u8"
+    for i, x in enumerate(v.f):
+        if not isinstance(x, VInt):
+            raise Unsupported("slice view of an array of %r" % (x,))
+        arr = z3.Store(arr, i, x.t)
+        ety = x.ty
+    return VSeq(arr, I(0), I(len(v.f)), ety)
+
+
 def strip_generics(path):
     """remove ::<...> groups"""
     out, depth, i = [], 0, 0
@@ -668,6 +680,8 @@ class Executor:
                 else:
                     v = self._read_raw(st, v.fid, v.local, v.proj)
             elif k == "slice":
+                if isinstance(v, VStruct) and v.name == "[array]":
+                    v = array_to_seq(v)
                 if not isinstance(v, VSeq):
                     raise Unsupported("sub-slice of %r" % (v,))
                 v = VSeq(v.arr, simp(v.off + p[1]), p[2], v.elem)
@@ -770,6 +784,11 @@ class Executor:
                 return VList(items, base.len, base.elem)
             raise Unsupported("index write on %r" % (base,))
         if k == "slice":
+            if isinstance(base, VStruct) and base.name == "[array]":
+                n = len(base.f)
+                upd = self._update(st, array_to_seq(base), proj, val)
+                ety = base.f[0].ty if base.f and isinstance(base.f[0], VInt) else "u8"
+                return VStruct("[array]", [VInt(simp(upd.at(I(i))), ety) for i in range(n)])
             if not isinstance(base, VSeq):
                 raise Unsupported("sub-slice write on %r" % (base,))
             start, ln = p[1], p[2]
@@ -963,6 +982,8 @@ class Executor:
                     v = self.deref(st, v)
                 if isinstance(v, (VSeq, VList)):
                     return VInt(v.len, "usize")
+                if isinstance(v, VStruct) and v.name == "[array]":
+                    return VInt(I(len(v.f)), "usize")
             raise Unsupported("unop %s on %r" % (op, v))
         if k == "cast":
             return self.cast(self.operand(st, fid, rv.a[0], fn), rv.a[1], rv.a[2])
@@ -1067,6 +1088,22 @@ class Executor:
         fid = next(self.fid)
         K = self.k_by_fn.get(fn.name, self.K if K is None else K)
         frame = {}
+        # zero-sized closure / fn-item locals are never assigned in MIR: give them their (field-less) value up front
+        assigned = getattr(fn, "_assigned_locals", None)
+        if assigned is None:
+            assigned = set()
+            for bb in fn.order:
+                blk = fn.blocks[bb]
+                for stmt in blk.stmts:
+                    if stmt.place is not None:
+                        assigned.add(stmt.place.local)
+                d = blk.term.a.get("dest") if blk.term is not None and hasattr(blk.term, "a") else None
+                if d is not None and hasattr(d, "local"):
+                    assigned.add(d.local)
+            fn._assigned_locals = assigned
+        for loc, ty in fn.locals.items():
+            if isinstance(ty, str) and ty.startswith("{closure@") and loc not in assigned:
+                frame[loc] = VStruct(ty, [])
         for (a, _), v in zip(fn.args, args):
             frame[a] = v
         if init:
